@@ -73,4 +73,47 @@ def preload (S : Spec) (fuel : Nat) : St → List (Option File) → St × Res
       | (st1, .ok, _) => preload S fuel st1 cs
       | (st1, r, _) => (st1, r)
 
+/-! ## histories: one load after the other on the same metamodel -/
+
+/-- one load of a history, the way the harness (and a user) starts it -/
+inductive Op
+  /-- `model_from_file(f)` / `model_from_str(text, file_name=f)` -/
+  | file (f : File)
+  /-- `model_from_str(text)`: the invented name is `anonymous{k}` = `a0 + k`, `k` the smallest unused -/
+  | str (a0 : File)
+  /-- `GlobalRepo.load_models_in_model_repo`: into the metamodel's global repository, or into a fresh
+  repository when the metamodel has none (the machine then runs with a global repository on that dict) -/
+  | preload (calls : List (Option File))
+
+def Op.run (S : Spec) (fuel : Nat) (st : St) : Op → St × Res × Inst
+  | .file f => loadMain S fuel st f
+  | .str a0 => loadStr S fuel st (anonKey a0 (if S.glob then st.all else []))
+  | .preload calls =>
+    let r := Repo.preload { S with glob := true } fuel (if S.glob then st else { st with all := [] }) calls
+    (r.1, r.2, 0)
+
+/-- a history: per load the files as they are then (`Spec`), the fuel and the entry point -/
+def runOps : List (Spec × Nat × Op) → St → St
+  | [], st => st
+  | (S, fuel, op) :: rest, st => runOps rest (op.run S fuel st).1
+
+/-! ## which references have a visible definition (C18 "the repaired load succeeds") -/
+
+/-- the definitions a load finds in file `h`: those of the cached model when `h` is cached in the dict the
+load starts from (`b`), the ones in the file otherwise -/
+def defsNow (S : Spec) (b : St) (h : File) : List Name :=
+  match b.all.get? h with
+  | some x => b.defsOf x
+  | none => S.defs h
+
+/-- name `n`, referenced in file `g`, has a visible definition: in `g` itself, in a file `g` asks
+`load_model` for, or in a builtin model -/
+def visible (S : Spec) (b : St) (g : File) (n : Name) : Bool :=
+  (S.defs g).contains n || ((S.calls g).filterMap id).any (fun h => (defsNow S b h).contains n) ||
+    S.builtins.any (·.contains n)
+
+/-- the references of the files `gs` without visible definition -/
+def unresolved (S : Spec) (b : St) (gs : List File) : List (File × Name) :=
+  gs.flatMap fun g => ((S.refs g).filter fun n => !visible S b g n).map fun n => (g, n)
+
 end Repo
